@@ -58,6 +58,9 @@ func c02Judge(root string, cfg wrConfig, before, after map[string]fileState, r R
 				}
 			}
 		}
+		// every printed path must name, walked through the directories of the tree, the file that its
+		// lexical reading names (gentree_c02.go)
+		ps = append(ps, c02PrintedPaths(root, cfg, before, after, r.Stdout)...)
 	}
 	for _, rel := range sortedKeys(after) {
 		a := after[rel]
@@ -68,6 +71,8 @@ func c02Judge(root string, cfg wrConfig, before, after map[string]fileState, r R
 		case !ok:
 			ps = append(ps, c02Problem{"C02/new-entry/" + fileClass(rel), "new directory entry after the run: " + rel, rel})
 		case a == b:
+		case autofix && strings.HasSuffix(rel, ".pkglint.tmp") && !named[rel]:
+			ps = append(ps, c02TmpProblem(rel, b, &a))
 		case !autofix:
 			what := "content"
 			if a.Data == b.Data && a.Kind == b.Kind {
@@ -90,7 +95,9 @@ func c02Judge(root string, cfg wrConfig, before, after map[string]fileState, r R
 		}
 	}
 	for _, rel := range sortedKeys(before) {
-		if _, ok := after[rel]; !ok {
+		if _, ok := after[rel]; !ok && autofix && strings.HasSuffix(rel, ".pkglint.tmp") {
+			ps = append(ps, c02TmpProblem(rel, before[rel], nil))
+		} else if !ok {
 			ps = append(ps, c02Problem{"C02/entry-removed/" + fileClass(rel), "directory entry removed by the run: " + rel, rel})
 		}
 	}
@@ -184,6 +191,8 @@ func runC02(ctx *Ctx) *Result {
 		r := seeds[i]
 		root := filepath.Join(ctx.Work, fmt.Sprintf("c%d", i))
 		g := GenerateTreeC03(r, root, GenOpts{Packages: 1 + i%3, Hostile: i%7 == 6, Rich: i%9 == 8, Density: 25 + 10*(i%4)})
+		// C02 only: include chains through sibling directories (raw path != printed path), gentree_c02.go
+		addIncludeChainsC02(r.Fork(), g)
 		probe := RunPkglint(ctx, root, 30*time.Second, "-Wall", "-f", "-r", ".")
 		byKind := onlyPatternsByKind(probe.Stdout)
 		hasFix := strings.Contains(probe.Stdout, "AUTOFIX") || strings.Contains(probe.Stdout, "autofix:")
@@ -214,7 +223,18 @@ func runC02(ctx *Ctx) *Result {
 			fo = append(fo, Pick(r, c02PlainOpts)...)
 		}
 		sets = append(sets, fo)
+		planted := false
 		for _, o := range sets {
+			if len(o) > 0 && o[0] == "-F" && !planted && i%4 == 1 {
+				// every fourth tree: entries of every kind at <file>.pkglint.tmp for files that are going to be fixed
+				planted = true
+				ks := c02PlantTmps(r, root, probe.Stdout)
+				featMu.Lock()
+				for _, k := range ks {
+					feats["c02.preexisting-tmp."+k]++
+				}
+				featMu.Unlock()
+			}
 			cfg := c02Targets(r, g, o)
 			if len(o) > 1 && o[0] == "-F" && o[len(o)-2] == "--only" && r.Chance(60) {
 				// the filtered --autofix run mostly sees the whole tree
@@ -230,7 +250,7 @@ func runC02(ctx *Ctx) *Result {
 		}
 		featMu.Lock()
 		for k, v := range g.Features {
-			if strings.HasPrefix(k, "c03.") {
+			if strings.HasPrefix(k, "c03.") || strings.HasPrefix(k, "c02.") {
 				feats[k] += v
 			}
 		}
@@ -248,6 +268,7 @@ func runC02(ctx *Ctx) *Result {
 	}
 	worst := map[string]pending{}
 	chmods, changedF, nontrivial, abnormal := 0, 0, 0, 0
+	pathDotdot, pathTwoUp, pathUpDownUp := 0, 0, 0
 	for _, rr := range recs {
 		for _, rec := range rr {
 			res.Evaluations++
@@ -265,6 +286,19 @@ func runC02(ctx *Ctx) *Result {
 				}
 				if strings.Contains(rec.r.Stdout, "AUTOFIX: ") || strings.Contains(rec.r.Stdout, ": autofix: ") {
 					changedF++
+				}
+				if strings.Contains(rec.r.Stderr, ".pkglint.tmp: Cannot write: ") {
+					res.Count("runs_-F_with_refused_save", 1)
+				}
+				dd, tu, udu := c02PathShape(rec.r.Stdout)
+				if dd {
+					pathDotdot++
+				}
+				if tu {
+					pathTwoUp++
+				}
+				if udu {
+					pathUpDownUp++
 				}
 			} else {
 				res.Count("runs_without_-F", 1)
@@ -301,7 +335,25 @@ func runC02(ctx *Ctx) *Result {
 	res.Count("runs_-F_with_autofix_lines", changedF)
 	res.Count("runs_-F_with_chmod_fix", chmods)
 	res.Count("runs_abnormal_exit", abnormal)
+	res.Count("runs_-F_autofix_path_with_dotdot", pathDotdot)
+	res.Count("runs_-F_autofix_path_with_two_up", pathTwoUp)
+	res.Count("runs_-F_autofix_path_up_down_up", pathUpDownUp)
+	if need := c02PathFloor(ctx.Tier); pathDotdot < need || pathTwoUp < need || pathUpDownUp < need {
+		// not res.Broken: a change of the program that makes these paths vanish from the output (or keeps
+		// the included files from being fixed) must not pass as "check broken"
+		res.AddViolation(Violation{Key: "C02/coverage-lost/autofix-paths-through-parent-directories",
+			What:       fmt.Sprintf("the -F runs no longer print AUTOFIX lines for files reached through parent directories: %d runs with '..' in a printed path, %d with '../..', %d with '../name/..' (need %d each); the generated include chains through sibling directories (gentree_c02.go) are not fixed or not printed with their path any more", pathDotdot, pathTwoUp, pathUpDownUp, need),
+			FoundInput: false,
+			Replay:     map[string]any{"broken": "coverage of the printed-path/written-path correspondence: include chains through sibling directories", "with_dotdot": pathDotdot, "with_two_up": pathTwoUp, "up_down_up": pathUpDownUp, "need": need}})
+	}
 	res.Exhaustive = false
+	if refused, _ := res.Distribution["runs_-F_with_refused_save"].(int); len(res.Violations) == 0 && refused < ntrees/40 {
+		// an assertion about the implementation, not about the machinery: with an entry at F.pkglint.tmp the save of F
+		// must be refused with an ERROR line; if that is no longer observed the tie to the model's e_tmp_exists branch is gone
+		res.AddViolation(Violation{Key: "C02/correspondence/refused-save-not-observed", FoundInput: false,
+			What:   fmt.Sprintf("only %d --autofix runs reported \"<file>.pkglint.tmp: Cannot write\" although entries of that name were planted in every fourth tree (need %d)", refused, ntrees/40),
+			Replay: map[string]any{"broken": "correspondence: exclusive create of the temporary file refused (Model.Autofix.save_file, e_tmp_exists)"}})
+	}
 	if len(res.Violations) == 0 && (chmods < 3 || changedF < ntrees/2 || nontrivial < ntrees) {
 		res.Broken = fmt.Sprintf("whole-run generator lost its coverage: %d -F runs with the chmod fix (need 3), %d -F runs with AUTOFIX lines (need %d), %d non-trivial runs", chmods, changedF, ntrees/2, nontrivial)
 	}
